@@ -2,6 +2,16 @@
 check derives from VERIF_SEED, so a case replays exactly (DESIGN §2.4)."""
 from protocol import pm, INTERNAL, KEYSIG, TIMESIG, CC, PC, OFF, ON, WAIT
 
+# every time signature a MIDI file can carry with numerator <= 17 and a power-of-two denominator <= 16 (incl. 8/8, the
+# library's configured default signature, 1/1, 17/16 ...): bar lengths are whole ticks at 24 ticks per quarter
+ALL_SIGS = [(n, d) for d in (1, 2, 4, 8, 16) for n in range(1, 18)]
+COMMON_SIGS = [(4, 4), (3, 4), (6, 8), (2, 4), (5, 8), (2, 2), (7, 8), (8, 8)]
+
+
+def any_sig(rng, common=0.6):
+    return rng.choice(COMMON_SIGS) if rng.random() < common else rng.choice(ALL_SIGS)
+
+
 DEFAULT_STEPS = [24, 12, 6, 16, 8, 4]
 DEFAULT_VALUES = [24, 12, 6, 16, 8, 4, 36, 18, 9]
 TOK_STEPS = [2, 3, 4, 6, 8, 12, 16, 24]
@@ -54,6 +64,21 @@ def notes_to_abs(notes, extra=(), cap=None):
     return msgs
 
 
+def shuffle_ties(rng, a):
+    """the same absolute events with the messages of each tick in random order: what add_absolute_message (a binary insort by
+    time only) leaves behind, depending on the order in which the messages were entered"""
+    out, i = [], 0
+    while i < len(a):
+        j = i
+        while j < len(a) and a[j][2] == a[i][2]:
+            j += 1
+        grp = list(a[i:j])
+        rng.shuffle(grp)
+        out.extend(grp)
+        i = j
+    return out
+
+
 def gen_extras(rng, max_tick=200, grid=1, n=None, channels=(0,)):
     """non-note events: time signatures, key signatures, control and program changes"""
     if n is None:
@@ -64,7 +89,7 @@ def gen_extras(rng, max_tick=200, grid=1, n=None, channels=(0,)):
         ch = rng.choice(channels)
         k = rng.random()
         if k < 0.4:
-            num, den = rng.choice([(4, 4), (3, 4), (6, 8), (2, 4), (5, 8), (2, 2), (7, 8)])
+            num, den = any_sig(rng)
             out.append(pm(TIMESIG, ch, t, num=num, den=den))
         elif k < 0.7:
             out.append(pm(KEYSIG, ch, t, key=rng.randrange(15)))
@@ -139,7 +164,7 @@ def gen_ill_rel(rng, n=None, channels=(0, 1), pitches=(0, 1, 60, 61)):
         elif k < 0.8:
             out.append(pm(OFF, ch, None, note=rng.choice(pitches)))
         elif k < 0.88:
-            num, den = rng.choice([(4, 4), (3, 4), (4, 4), (6, 8)])
+            num, den = rng.choice([(4, 4), (3, 4), (4, 4), (6, 8), (8, 8), (8, 8)]) if rng.random() < 0.8 else any_sig(rng)
             out.append(pm(TIMESIG, ch, None, num=num, den=den))
         elif k < 0.95:
             out.append(pm(KEYSIG, ch, None, key=rng.choice([0, 0, 1, 8])))
@@ -158,7 +183,8 @@ EXOTIC_SIGS = [(9, 4), (5, 2), (12, 4), (6, 2), (8, 4), (3, 2), (12, 8), (16, 8)
 
 
 def pick_sig(rng):
-    return rng.choice(EXOTIC_SIGS) if rng.random() < 0.15 else rng.choice(SIGS)
+    r = rng.random()
+    return rng.choice(EXOTIC_SIGS) if r < 0.1 else (rng.choice(ALL_SIGS) if r < 0.2 else rng.choice(SIGS + [(8, 8)]))
 
 
 def bar_len(num, den, ppqn=24):
@@ -253,3 +279,23 @@ def enum_rel(max_len, alphabet=None):
     for n in range(max_len + 1):
         for combo in itertools.product(alphabet, repeat=n):
             yield list(combo)
+
+
+def spread_channels(rng, rel, channels=(0, 1, 2)):
+    """the same relative track with every note moved to a random channel (note-on and its note-off together; notes of one
+    pitch keep one channel so that the track stays well-formed); waits take the channel of the message that follows them,
+    as the library's own conversion does"""
+    ch_of = {}
+    out = []
+    for m in rel:
+        if m[0] in (ON, OFF):
+            c = ch_of.setdefault(m[3], rng.choice(channels))
+            out.append((m[0], c) + tuple(m[2:]))
+        else:
+            out.append(m)
+    for i, m in enumerate(out):
+        if m[0] == WAIT:
+            nxt = next((x for x in out[i + 1:] if x[0] != WAIT), None)
+            if nxt is not None:
+                out[i] = (WAIT, nxt[1]) + tuple(m[2:])
+    return out
